@@ -38,7 +38,7 @@ type RespPlan struct {
 	AnnounceCase     string      `json:"announce_case,omitempty"`      // spelling of the names in the Trailer header: "" canonical | lower | upper | given | lines (one header line per name)
 	StrayHTTPTrailer bool        `json:"stray_http_trailer,omitempty"` // a Connect-unary backend (whose trailers are Trailer- headers) also sets a real HTTP trailer, as a middleware might
 	CTCharset        bool        `json:"ct_charset,omitempty"`         // a REST backend labels its JSON (a Connect unary backend: its error JSON) "application/json; charset=utf-8"
-	CompressErrBody  bool        `json:"compress_err_body,omitempty"`  // a Connect-unary backend compresses its error body too (legal; connect-go does not)
+	CompressErrBody  bool        `json:"compress_err_body,omitempty"`  // a Connect-unary or REST backend compresses its error body too (legal; connect-go does not, a compressing middleware does)
 	EarlyTrailers    bool        `json:"early_trailers,omitempty"`     // prefix style: the first value of a multi-valued trailer is set before the head is written, the rest after the body
 	DeclareCL        string      `json:"declare_cl,omitempty"`         // "" | exact | +N | -N | =N
 	WriteMode        string      `json:"write_mode,omitempty"`         // whole | frames | prefix-payload | sizes
@@ -55,14 +55,16 @@ type RespPlan struct {
 	EndRaw           []byte      `json:"end_raw,omitempty"`          // override the bytes of the end-of-stream frame payload
 	EndFlags         *int        `json:"end_flags,omitempty"`
 	EndCompressed    bool        `json:"end_compressed,omitempty"` // the end-of-stream / trailer frame is compressed (its compressed bit set)
-	OmitEnd          bool        `json:"omit_end,omitempty"`   // never signal the end (missing grpc-status / end frame)
-	ExtraHdrs        [][2]string `json:"extra_hdrs,omitempty"` // raw control headers (hostile)
-	RawBody          []byte      `json:"raw_body,omitempty"`   // if non-nil replaces the rendered body (hostile)
+	OmitEnd          bool        `json:"omit_end,omitempty"`       // never signal the end (missing grpc-status / end frame)
+	ExtraHdrs        [][2]string `json:"extra_hdrs,omitempty"`     // raw control headers (hostile)
+	RawBody          []byte      `json:"raw_body,omitempty"`       // if non-nil replaces the rendered body (hostile)
 	HasRawBody       bool        `json:"has_raw_body,omitempty"`
 	HasEndRaw        bool        `json:"has_end_raw,omitempty"`
 	RawStatus        int         `json:"raw_status,omitempty"`
-	ContentType      string      `json:"content_type,omitempty"` // override
-	HTTPBody         bool        `json:"http_body,omitempty"`    // REST target answering google.api.HttpBody: raw bytes
+	ContentType      string      `json:"content_type,omitempty"`    // override
+	HTTPBody         bool        `json:"http_body,omitempty"`       // REST target answering google.api.HttpBody: raw bytes
+	AfterEnd         []byte      `json:"after_end,omitempty"`       // bytes that follow the end-of-stream frame in the body (protocols whose end travels in the body)
+	RawHeaderKeys    bool        `json:"raw_header_keys,omitempty"` // application response headers are stored into the header map directly: the first value of a name under its canonical spelling, later values under the lower-case one (HTTP/2-style), as handlers that index w.Header() do
 }
 
 type BackendPlan struct {
@@ -74,6 +76,7 @@ type BackendPlan struct {
 	LateIO      bool     `json:"late_io,omitempty"`      // a leaked goroutine touches body and writer after the handler returned
 	ReadAfter   bool     `json:"read_after,omitempty"`   // keep reading the request after responding
 	CloseBody   string   `json:"close_body,omitempty"`   // the handler closes the request body itself: after-read | at-return | twice (connect-go and grpc-go handlers do)
+	ServerFirst bool     `json:"server_first,omitempty"` // pingpong: the handler sends one message before it reads anything, and the client waits for it before sending its first
 	SplitReader bool     `json:"split_reader,omitempty"` // pingpong: a second goroutine of the handler does the reading (reverse proxies, grpc-go's ServeHTTP transport)
 }
 
@@ -651,6 +654,12 @@ func (h *backendHandler) renderResponse(st *rpcState, obs *BackendObs, override 
 		msgs = nil
 	}
 	for _, kv := range rp.Headers {
+		ck, lk := http.CanonicalHeaderKey(kv[0]), strings.ToLower(kv[0])
+		if _, has := rr.headers[ck]; rp.RawHeaderKeys && has && lk != ck {
+			// sorted by key the canonical spelling comes first, so the order of the values on the wire is the scripted one
+			rr.headers[lk] = append(rr.headers[lk], kv[1])
+			continue
+		}
 		rr.headers.Add(kv[0], kv[1])
 	}
 	comp := rp.Compression
@@ -783,6 +792,7 @@ func (h *backendHandler) renderResponse(st *rpcState, obs *BackendObs, override 
 			rr.prefixes = append(rr.prefixes, len(rr.body))
 			rr.body = append(rr.body, envelope(fl, payload)...)
 			rr.bounds = append(rr.bounds, len(rr.body))
+			rr.body = append(rr.body, rp.AfterEnd...)
 		}
 	case obs.Protocol == ProtoConnect && obs.Stream:
 		rr.headers.Set("Content-Type", "application/connect+"+obs.Codec)
@@ -818,6 +828,7 @@ func (h *backendHandler) renderResponse(st *rpcState, obs *BackendObs, override 
 		rr.prefixes = append(rr.prefixes, len(rr.body))
 		rr.body = append(rr.body, envelope(fl, payload)...)
 		rr.bounds = append(rr.bounds, len(rr.body))
+		rr.body = append(rr.body, rp.AfterEnd...)
 	case obs.Protocol == ProtoConnect:
 		for _, kv := range rp.Trailers {
 			rr.headers.Add("Trailer-"+kv[0], kv[1])
@@ -868,6 +879,11 @@ func (h *backendHandler) renderResponse(st *rpcState, obs *BackendObs, override 
 			}
 			if merr != nil {
 				rr.body = []byte(`{"code":13,"message":"unrenderable error"}`)
+			}
+			if rp.CompressErrBody && comp != "" {
+				// a REST server behind a compress-everything middleware: the error body is encoded like any other body
+				rr.body = refCompress(comp, rr.body)
+				rr.headers.Set("Content-Encoding", comp)
 			}
 			break
 		}
@@ -1161,6 +1177,39 @@ func (h *backendHandler) pingpong(st *rpcState, obs *BackendObs, rw http.Respons
 			readerTok.acquire()
 		}()
 	}
+	// writeMsg sends response message i (headers first if this is the first one) and says whether it went out
+	writeMsg := func(i int) bool {
+		rr := h.renderResponse(st, obs, nil, []MsgSpec{rp.Msgs[i]})
+		// strip the end frame: in ping-pong the end is written after the loop
+		body := rr.body
+		if len(rr.bounds) > 0 {
+			body = rr.body[:rr.bounds[0]]
+		}
+		if !headersOut {
+			for k, v := range rr.headers {
+				rw.Header()[k] = append([]string(nil), v...)
+			}
+			headersOut = true
+		}
+		if _, err := rw.Write(body); err != nil {
+			obs.WriteErrs = append(obs.WriteErrs, err.Error())
+			return false
+		}
+		if rp.FlushEvery > 0 {
+			if f, ok := rw.(http.Flusher); ok {
+				f.Flush()
+			}
+		}
+		return true
+	}
+	greeted := 0
+	if st.plan.Backend.ServerFirst && len(rp.Msgs) > 0 {
+		// the handler speaks first: nothing has been read yet (the client is waiting for this message)
+		if writeMsg(0) {
+			greeted = 1
+			w.Logf("backend.greeting", "")
+		}
+	}
 	for {
 		// read until one more complete frame is available or the body ends
 		for {
@@ -1181,7 +1230,7 @@ func (h *backendHandler) pingpong(st *rpcState, obs *BackendObs, rw http.Respons
 		if len(frames) <= sent {
 			break
 		}
-		if sent >= len(rp.Msgs) {
+		if sent+greeted >= len(rp.Msgs) {
 			// nothing more to say; drain
 			if split {
 				w.Block("hwriter.drain", func() bool { return rd.done })
@@ -1191,32 +1240,14 @@ func (h *backendHandler) pingpong(st *rpcState, obs *BackendObs, rw http.Respons
 			}
 			break
 		}
-		rr := h.renderResponse(st, obs, nil, []MsgSpec{rp.Msgs[sent]})
-		// strip the end frame: in ping-pong the end is written after the loop
-		body := rr.body
-		if len(rr.bounds) > 0 {
-			body = rr.body[:rr.bounds[0]]
-		}
-		if !headersOut {
-			for k, v := range rr.headers {
-				rw.Header()[k] = append([]string(nil), v...)
-			}
-			headersOut = true
-		}
-		if _, err := rw.Write(body); err != nil {
-			obs.WriteErrs = append(obs.WriteErrs, err.Error())
+		if !writeMsg(sent + greeted) {
 			break
-		}
-		if rp.FlushEvery > 0 {
-			if f, ok := rw.(http.Flusher); ok {
-				f.Flush()
-			}
 		}
 		sent++
 		w.Logf("backend.pong", "%d", sent)
 	}
 	h.decodeRequest(obs)
-	obs.SentMsgs = sent
+	obs.SentMsgs = sent + greeted
 	// the end: render with no messages, write only the tail
 	var override *ErrSpec
 	if len(obs.Undecodable) > 0 && !st.plan.Backend.Lenient {
